@@ -308,6 +308,12 @@ MORE = {
                   'scheduler explores three cache=False worlds exhaustively.',
              note=' For cache=False the guard carries one unproved assumption (a weak entry seen dead under the lock is still there and dead when get deletes it), '
                   'checked before every replayed step of the correspondence.'),
+ 'C15': dict(text=' An instance layer (Model/InheritInst.v) carries the cached values of the chain instances and the identity map through sync(), syncUpdate(), expire() and '
+                  'out-of-band UPDATEs: the nesting invariant holds over the extended histories (C15_inst_nesting_inv_partial, C15_inst_history_extends_old, C15_inst_reaches_old); '
+                  'since repair 47d20cb sync()/expire() of an object refresh its own and every inherited level, so that every attribute reads the stored value through every '
+                  'entry class (C15_refresh_own_level_partial unconditionally, C15_refresh_inherited_partial and C15_refresh_partial when no second instance of an ancestor row '
+                  'sits in the identity map; C15_refresh_refuted is that open finding).',
+             note=' lazyUpdate hierarchies are not modelled (tried by script only); the twin of an expired ancestor instance (expire() called on obj._parent) is an open finding.'),
  'C19': dict(text=' The flush and discard points of a lazy instance are operations of the model: pickling and sync() deliver exactly what syncUpdate() delivers, expire() delivers '
                   'nothing, writes nothing and drops the queue for good, later operations still deliver theirs (C19_pickle_is_syncUpdate, C19_sync_is_syncUpdate, '
                   'C19_flush_exactly_once_in_order, C19_expire_silent, C19_expired_queue_never_written, C19_after_expire_in_order); updates of instances of an inheritance '
